@@ -2,6 +2,8 @@ import TextxVerif.Proofs.RuleTypes
 import TextxVerif.Proofs.RuleTypesInh
 import TextxVerif.Proofs.RuleTypesObj
 import TextxVerif.Proofs.RuleTypesAlts
+import TextxVerif.Proofs.RuleTypesInhAll
+import TextxVerif.Proofs.RuleTypesTree
 /-!
 # C03 — rule kinds determine what objects a model contains
 
@@ -15,7 +17,10 @@ cycles, self references, mixed alternatives); `WF` only says that every
 referenced rule exists.  The "documented fragment" (`Body.documented`) is
 sequences and ordered choices of matches and rule references; bodies with other
 operators (`?`, `*`, `+`, `#`, predicates) are covered by the kinds, by the
-list-level `isinstance` theorem and by the object theorems, not by `C03_inh`.
+list-level `isinstance` theorem, by the object theorems and by the two-sided bounds
+`C03_inh_lower` / `C03_inh_upper` / `C03_isinstance_bounds`, not by `C03_inh`.
+`TextxVerif/RuleTypesTree.lean` relates the children of a node to the alternatives of the
+rule's body (`Derives`, `WfTree`) and gives `proc` a relational specification (`Yields`).
 -/
 namespace RuleTypes
 
@@ -146,6 +151,132 @@ theorem C03_result_all_match_full_false :
   rw [h1] at h
   simp [rawL, PT.raw] at h
 
+/-! ## the parse tree against the grammar, the result against `textx_isinstance`
+
+`Derives k b kids` (an inductive relation, `TextxVerif/RuleTypesTree.lean`) says which lists of
+children the body `b` of a root rule can leave in the rule's node: a match one terminal, a rule
+reference the node of that rule (a terminal if the rule is a single match), a sequence the
+concatenation, an ordered choice the children of one alternative — Arpeggio's flattening for the
+documented fragment.  `WfTree g k t`: every node of an abstract rule in `t` has such children.
+The driver evaluates the executable forms (`derivesB`, `treeOK`) on every Arpeggio parse tree of
+the correspondence check, so the hypotheses below are observed facts about the real trees. -/
+
+/-- the recogniser run by the driver decides the relation (sound and complete) -/
+theorem C03_derives_iff (k : Kinds) (b : Body) (kids : List PT) :
+    derivesB k b kids = true ↔ Derives k b kids :=
+  derivesB_iff k b kids
+
+/-- the tree check run by the driver decides `WfTree` -/
+theorem C03_tree_iff (g : Gram) (k : Kinds) (t : PT) : treeOK g k t = true ↔ WfTree g k t :=
+  treeOK_iff g k t
+
+/-- **The alternative that matched.**  The children of a rule's node are those of one alternative
+`a` of the body: the nodes of non-match rules among them are, in order, exactly the non-match
+references of `a`; in particular the first child that is the node of a non-match rule is the node
+of the first non-match reference of `a` (and there is no such child iff `a` has no such reference).
+No side condition on the body: the relation itself only passes through sequences and choices. -/
+theorem C03_children_alternative (k : Kinds) (b : Body) (kids : List PT) (h : Derives k b kids) :
+    ∃ a, a ∈ b.alts ∧ (nmHeads k kids = a.filter fun r => k r != .mtch) ∧
+      (kids.find? (PT.isNM k)).bind PT.head = firstNMof k a := by
+  obtain ⟨a, ha, e⟩ := derives_alt h
+  exact ⟨a, ha, e, by rw [find_isNM_head, firstNMof_eq_head, e]⟩
+
+/-- the same through `FirstNM`, the relation `Edge` / `Reach` / `C03_inh` are stated with -/
+theorem C03_children_firstNM (k : Kinds) (b : Body) (kids : List PT) (h : Derives k b kids) :
+    FirstNM k b ((kids.find? (PT.isNM k)).bind PT.head) := by
+  rw [find_isNM_head]
+  exact derives_firstNM h
+
+/-- **Abstract rule: the result by the alternative that matched.**  For the node of an abstract
+rule whose children come from the body `b` there is an alternative `a` of `b` (the one that
+matched) such that: if `a` has a first non-match reference `S`, the result is the result of the
+node of `S` — the first child that is the node of a non-match rule; if `a` references match rules
+only, the result is a plain value (its text: `C03_result_concat_terminals`, `C03_result_single_child`,
+`C03_result_all_match_partial`). -/
+theorem C03_result_alternative (k : Kinds) (R : Nat) (b : Body) (kids : List PT) (hk : k R = .abstr)
+    (hd : Derives k b kids) :
+    ∃ a, a ∈ b.alts ∧ (nmHeads k kids = a.filter fun r => k r != .mtch) ∧
+      (∀ S, firstNMof k a = some S → ∃ ks, kids.find? (PT.isNM k) = some (.nt S ks) ∧
+          proc k (.nt R kids) = proc k (.nt S ks)) ∧
+      (firstNMof k a = none → ∃ s, proc k (.nt R kids) = .prim s) :=
+  proc_alternative k R b kids hk hd
+
+/-- **The rule-kind dispatch, clause by clause.**  `Yields` (`TextxVerif/RuleTypesTree.lean`) is the
+specification written from the property text — a terminal and a match rule yield a plain value, a
+common rule an object of its own class, an abstract rule what its single child yields / what the
+*first* child that is the node of a non-match rule yields (with "first" spelled out as a split
+`pre ++ x :: post` whose prefix has no such node) / the first match-rule node (KF1) / the
+concatenated matched text.  `proc`, the function that is compared with `process_node`, computes
+exactly this relation: it is total (every tree yields `proc k t`) and deterministic (nothing else).
+`C03_match_plain`, `C03_result_single_child`, `C03_result_first_nonmatch`,
+`C03_result_concat_terminals` are the clauses of this specification read as equations. -/
+theorem C03_result_spec (k : Kinds) (t : PT) (v : Val) : Yields k t v ↔ proc k t = v :=
+  ⟨yields_proc, fun h => h ▸ proc_yields k t⟩
+
+/-- **The result is an instance of the rule.**  For every grammar, every assignment of kinds and
+every parse tree whose abstract rules' nodes derive from their bodies: if the node of rule `R`
+yields an object of rule `o`, then `R` is common and `o = R`, or `R` is abstract and `o` is
+reachable from `R` through abstract-rule alternatives; in both cases `textx_isinstance(obj, R)`
+holds.  (With `k = kindsOf g` this ties `proc` to `Reach`, `inhBy` and `isInstance`; bodies with
+other operators may occur anywhere in the grammar, only the abstract rules *met in the tree* must
+have derived children.) -/
+theorem C03_result_instance (g : Gram) (hwf : WF g) (k : Kinds) (R : Nat) (kids : List PT)
+    (ht : WfTree g k (.nt R kids)) (o : Nat) (attrs : List (String × List Val))
+    (h : proc k (.nt R kids) = .obj o attrs) :
+    ((k R = .common ∧ o = R) ∨ (k R = .abstr ∧ Reach g k R o)) ∧ isInstance g k o (.rule R) = true := by
+  rcases proc_reach g k _ ht R kids rfl o attrs h with ⟨h1, h2⟩ | ⟨h1, h2, h3⟩
+  · refine ⟨Or.inl ⟨h1, h2⟩, ?_⟩
+    rw [isInstance_iff_path g hwf, h2]
+    exact .refl _
+  · exact ⟨Or.inr ⟨h1, h2⟩, (isInstance_iff_path g hwf k o R).mpr h3⟩
+
+/-- `Model: B? C;  B: 'b' x=INT;  C: 'c' y=INT;` -/
+def optGram : Gram := [⟨false, .seq [.other [.ref 1], .ref 2]⟩, ⟨true, .lit⟩, ⟨true, .lit⟩]
+
+/-- **The hypothesis on the tree is needed.**  Without `WfTree` (an abstract rule with an optional
+part, outside the documented fragment) the conclusion of `C03_result_instance` fails, in the model
+and in textX alike: on `c 5` the model is the `C` object, `Model._tx_inh_by` holds `B` only, and
+`textx_isinstance(model, Model)` is false. -/
+theorem C03_result_instance_other_false :
+    WF optGram ∧ ¬ WfTree optGram (kindsOf optGram) (.nt 0 [.nt 2 []]) ∧
+      proc (kindsOf optGram) (.nt 0 [.nt 2 []]) = .obj 2 [] ∧
+      inhBy optGram (kindsOf optGram) 0 = [1] ∧ isInstance optGram (kindsOf optGram) 2 (.rule 0) = false := by
+  have h0 : kindsOf optGram 0 = .abstr := by decide
+  have h2 : kindsOf optGram 2 = .common := by decide
+  refine ⟨by decide, ?_, ?_, by decide, by decide⟩
+  · intro h
+    have := (C03_tree_iff _ _ _).mpr h
+    revert this
+    decide
+  · simp [proc, procFirst, procAttrs, h0, h2]
+
+/-- **Inheritance list, lower bound, all operators.**  Whatever operators the body contains, the
+first non-match reference of every alternative that `FirstNM` describes (alternatives through the
+documented part of the body) is in `_tx_inh_by`. -/
+theorem C03_inh_lower (g : Gram) (k : Kinds) (R S : Nat) (h : Edge g k R S) : S ∈ inhBy g k R :=
+  edge_mem_inhBy g k h
+
+/-- **Inheritance list, upper bound, all operators.**  Every entry of `_tx_inh_by` of `R` is a
+rule that `R` — an abstract rule — references and that is not a match rule. -/
+theorem C03_inh_upper (g : Gram) (hwf : WF g) (R : Nat) (rule : Rule) (hR : g[R]? = some rule) :
+    ∀ S ∈ inhBy g (kindsOf g) R,
+      kindsOf g R = .abstr ∧ S ∈ rule.body.refs ∧ kindsOf g S ≠ .mtch :=
+  inhBy_upper g _ (C03_kinds g hwf).2 R rule hR
+
+/-- **textx_isinstance, all operators**: reachability through abstract-rule alternatives implies
+it, and it implies reachability through references of abstract rules to non-match rules
+(`nmRefs`).  For documented grammars both bounds coincide with `C03_isinstance`. -/
+theorem C03_isinstance_bounds (g : Gram) (hwf : WF g) (o R : Nat) :
+    ((R = o ∨ Reach g (kindsOf g) R o) → isInstance g (kindsOf g) o (.rule R) = true) ∧
+    (isInstance g (kindsOf g) o (.rule R) = true → Path (nmRefs g (kindsOf g)) R o) := by
+  constructor
+  · rintro (rfl | h)
+    · exact (isInstance_iff_path g hwf _ _ _).mpr (.refl _)
+    · exact (isInstance_iff_path g hwf _ _ _).mpr (reach_path g _ h)
+  · intro h
+    exact path_mono (fun a y => inhBy_sub_nmRefs g _ (C03_kinds g hwf).2 a y)
+      ((isInstance_iff_path g hwf _ _ _).mp h)
+
 /-! ## the pinned behaviour violated the property (negation witnesses) -/
 
 def wKinds : Kinds := fun r => if r = 0 then .abstr else .common
@@ -232,5 +363,58 @@ example : proc (fun _ => .abstr) (.nt 0 [.term "#k" "#k", .term "false" "False"]
 /-- a multi-token match rule: the converted values, joined -/
 example : proc (fun _ => .mtch) (.nt 0 [.term "#k" "#k", .term "false" "False"]) = .prim "#kFalse" := by
   simp [proc, flatL, PT.flat]
+
+/-- the parse tree of `k z 5` in `cycGram`: `Model(X('k', Model(X('z', W(w=5)))))` -/
+def cycTree : PT :=
+  .nt 0 [.nt 1 [.term "k" "k", .nt 0 [.nt 1 [.term "z" "z", .nt 3 [.asgn "w" [.term "5" "5"]]]]]]
+
+/-- the hypotheses of `C03_result_instance` hold for it (`WfTree` through its decision procedure),
+the result is the `W` object, and the conclusion says it is an instance of `Model` -/
+example : WF cycGram ∧ WfTree cycGram (kindsOf cycGram) cycTree ∧
+    proc (kindsOf cycGram) cycTree = .obj 3 [("w", [.prim "5"])] ∧
+    isInstance cycGram (kindsOf cycGram) 3 (.rule 0) = true := by
+  have hwf : WF cycGram := by decide
+  have ht : WfTree cycGram (kindsOf cycGram) cycTree := (C03_tree_iff _ _ _).mp (by decide)
+  have hp : proc (kindsOf cycGram) cycTree = .obj 3 [("w", [.prim "5"])] := by
+    have h0 : kindsOf cycGram 0 = .abstr := by decide
+    have h1 : kindsOf cycGram 1 = .abstr := by decide
+    have h3 : kindsOf cycGram 3 = .common := by decide
+    simp [cycTree, proc, procFirst, procAttrs, procL, PT.isNM, h0, h1, h3]
+  exact ⟨hwf, ht, hp, (C03_result_instance cycGram hwf _ 0 _ ht 3 _ hp).2⟩
+
+/-- `Derives` is inhabited for a nested choice: `'x' (B | C) D` leaves `'x' B D`, `B` a match
+rule that is a single match (a terminal) or a multi-token match rule (a node) -/
+example : Derives w4Kinds (.seq [.lit, .choice [.ref 1, .ref 2], .ref 3]) [.term "x" "x", .term "b" "b", .nt 3 []] ∧
+    Derives w4Kinds (.seq [.lit, .choice [.ref 1, .ref 2], .ref 3]) [.term "x" "x", .nt 1 [], .nt 3 []] :=
+  ⟨(C03_derives_iff _ _ _).mp (by decide), (C03_derives_iff _ _ _).mp (by decide)⟩
+
+/-- … and refuted for children no alternative leaves (`D` alone; `'x' C C`) -/
+example : ¬ Derives w4Kinds (.seq [.lit, .choice [.ref 1, .ref 2], .ref 3]) [.nt 3 []] ∧
+    ¬ Derives w4Kinds (.seq [.lit, .choice [.ref 1, .ref 2], .ref 3]) [.term "x" "x", .nt 2 [], .nt 2 []] :=
+  ⟨fun h => by have := (C03_derives_iff _ _ _).mpr h; revert this; decide,
+   fun h => by have := (C03_derives_iff _ _ _).mpr h; revert this; decide⟩
+
+/-- `C03_result_alternative` on `Model: 'x' (B | C) D` with children `'x' B D`: the alternative is
+`B D`, its first non-match reference `D` -/
+example : nmHeads w4Kinds [.term "x" "x", .nt 1 [], .nt 3 []] = [3] ∧
+    firstNMof w4Kinds [1, 3] = some 3 ∧ [1, 3] ∈ (Body.seq [.lit, .choice [.ref 1, .ref 2], .ref 3]).alts := by
+  decide
+
+/-- `C03_inh_lower` / `C03_isinstance_bounds` say something outside the documented fragment:
+`Model: B? C;` (`B`, `C` common) — `B` is a first non-match reference through … nothing documented,
+but `Model: (B? 'k') | C;` lists `C` by the theorem (and `B` by the walk) -/
+example : Edge [⟨false, .choice [.other [.ref 1, .lit], .ref 2]⟩, ⟨true, .lit⟩, ⟨true, .lit⟩] wKinds 0 2 ∧
+    inhBy [⟨false, .choice [.other [.ref 1, .lit], .ref 2]⟩, ⟨true, .lit⟩, ⟨true, .lit⟩] wKinds 0 = [1, 2] :=
+  ⟨⟨_, rfl, rfl, .choice (List.mem_cons_of_mem _ (List.mem_cons_self ..)) (.refNM (by decide))⟩, by decide⟩
+
+/-- the specification `Yields` is usable on its own: `Prefix Rule1` with `Prefix: '#' '#'` yields the
+`Rule1` object by the first-non-match clause (prefix: the match rule's node) -/
+example : Yields w4Kinds (.nt 0 [.nt 1 [.term "#" "#", .term "#" "#"], .nt 2 [.asgn "a" [.term "5" "5"]]])
+    (.obj 2 [("a", [.prim "5"])]) := by
+  have h : Yields w4Kinds (.nt 2 [.asgn "a" [.term "5" "5"]]) (.obj 2 [("a", [.prim "5"])]) := by
+    have := Yields.common (k := w4Kinds) (r := 2) (kids := [.asgn "a" [.term "5" "5"]]) rfl
+    simpa [procAttrs, procL, proc] using this
+  exact Yields.firstNM (pre := [.nt 1 [.term "#" "#", .term "#" "#"]]) (post := []) rfl (by decide)
+    (by simp [PT.isNM, w4Kinds]) (by simp [PT.isNM, w4Kinds]) h
 
 end RuleTypes
